@@ -104,6 +104,22 @@ impl Default for RunOpts {
 }
 
 #[derive(Serialize, Deserialize, Clone, Debug, PartialEq)]
+pub struct Variant {
+    pub sel: i64,
+    /// empty = keep the base budgets
+    pub budgets: Vec<u32>,
+    pub gc: Option<GcSpec>,
+    pub quarantine: Option<bool>,
+    pub optimizer_off: Option<bool>,
+}
+
+impl Variant {
+    pub fn sel(sel: i64) -> Variant {
+        Variant { sel, budgets: vec![], gc: None, quarantine: None, optimizer_off: None }
+    }
+}
+
+#[derive(Serialize, Deserialize, Clone, Debug, PartialEq)]
 pub struct PanicInfo {
     pub msg: String,
     pub file: String,
@@ -250,6 +266,8 @@ pub enum Req {
     Run { files: Vec<SrcFile>, main: String, opts: RunOpts },
     /// compile once, run once per selector (host fn `verif_sel() -> int` returns it)
     RunMany { files: Vec<SrcFile>, main: String, opts: RunOpts, selectors: Vec<i64> },
+    /// compile once, then one fresh runtime per variant (selector + overrides of the base opts)
+    RunVar { files: Vec<SrcFile>, main: String, opts: RunOpts, variants: Vec<Variant> },
     /// check and/or compile only
     Front { files: Vec<SrcFile>, main: String, check: bool, compile: bool },
     /// check_lsp + errors(); optionally queries. `all_offsets`: every byte offset 0..=len(+1) of every user file
